@@ -166,6 +166,8 @@ type hostListener struct {
 	ln    *net.TCPListener
 	addr  string
 	conns []*hostConn
+	// hangup: the host closes every connection right after accepting it, before sending a byte
+	hangup bool
 }
 
 func newHostListener() *hostListener {
@@ -203,6 +205,13 @@ func (h *hostListener) poll() int {
 		}
 		hc := &hostConn{c: c, done: make(chan struct{})}
 		h.conns = append(h.conns, hc)
+		if h.hangup {
+			c.Close()
+			hc.eof = true
+			close(hc.done)
+			n++
+			continue
+		}
 		go func() {
 			defer close(hc.done)
 			buf := make([]byte, 65536)
@@ -297,14 +306,26 @@ func (c *gwCfg) gateway() *protocol.Gateway {
 		SmartCardAuth: c.sc,
 		TokenAuth:     c.token,
 	}
+	// the installed callbacks report a refusal with an error value (as security.CheckHost and
+	// CheckPAACookie do) or without one, and an acceptance sometimes with a stray error: only the
+	// boolean decides
+	verdict := func(ok bool, s string) (bool, error) {
+		if (len(s)+c.idle)%2 == 0 {
+			return ok, nil
+		}
+		if ok {
+			return true, nil
+		}
+		return false, fmt.Errorf("refused %q", s)
+	}
 	if c.ccheck {
-		g.CheckPAACookie = func(_ context.Context, s string) (bool, error) { return contains(c.cookies, s), nil }
+		g.CheckPAACookie = func(_ context.Context, s string) (bool, error) { return verdict(contains(c.cookies, s), s) }
 	}
 	if c.ncheck {
-		g.CheckClientName = func(_ context.Context, s string) (bool, error) { return contains(c.clients, s), nil }
+		g.CheckClientName = func(_ context.Context, s string) (bool, error) { return verdict(contains(c.clients, s), s) }
 	}
 	if c.hcheck {
-		g.CheckHost = func(_ context.Context, s string) (bool, error) { return contains(c.hosts, s), nil }
+		g.CheckHost = func(_ context.Context, s string) (bool, error) { return verdict(contains(c.hosts, s), s) }
 	}
 	return g
 }
@@ -384,6 +405,12 @@ func runProcessWith(cfg *gwCfg, reads [][]byte, listeners []*hostListener, prep 
 	case <-time.After(20 * time.Second):
 		res.timedOut = true
 		return res
+	}
+	for _, l := range listeners {
+		if l.hangup && len(res.accepted) > 0 {
+			time.Sleep(25 * time.Millisecond) // a connection opened behind the loop's back shows up here
+			break
+		}
 	}
 	protocol.VerifCloseBackend(t)
 	// final sweep: stray connection attempts belong to the last request read
